@@ -33,6 +33,30 @@ CHECKS = {
    technique="TLA+ history model (Update with refused / accepted arms, SetOrder, rebuild through try_new) model-checked by TLC (exponents never change, refused updates change nothing, index stable); recorded histories of real FXRates objects validated step by step by TLC incl. first- and second-order sensitivities by expected variable name derived from the path exponents",
    text="Every step of every recorded history (up to 12 operations on 2-12 currency markets, float and dual quotes) is an action of the specification; values, gradients by name fx_<pair> (or the quote's own variables) and Hessians are recomputed by TLC from the spec state built from the latest quotes.",
    note="Sensitivities to 1e-9 of the sum of absolute terms; Hessians on all pairs up to 4 currencies and a probe subset above; order reset by update is modelled, not judged."),
+ "C01": dict(engine="num", cat="model_checking", design="5/C01",
+   technique="TLA+ register machine over by-name dual numbers (DualAlgebra/NumVM): TLC explores every program of depth <= 2 (thorough 3) and checks the textbook rules against finite differences of an independent float evaluator; TLC-written exhaustive depth-1 programs (all layout pairs x operators x owned/borrowed and float-left/right forms) and seeded random programs are executed on the real crate and every instruction is validated by TLC against the logged operands",
+   text="The rules are validated against calculus inside TLC; every operator impl the macros generate is called once per layout pair, and compositions of depth 3-8 are validated step by step, so rounding never accumulates and a wrong sign/factor/index in one variant is an O(1) error against a 1e-9 tolerance.",
+   note="Sampled real points, not all reals; non-differentiable points and ill-conditioned magnitudes are skipped and counted; FP.java primitives and TLC trusted."),
+ "C02": dict(engine="num", cat="model_checking", design="5/C02",
+   technique="Same machine at second order: TLC checks Hessian rules against second-order finite differences and symmetry on every explored program; recorded Dual2 instructions are validated by TLC on the TRUE Hessian (2 x the stored array, read independently of gradient2), with asymmetric stored arrays in the exhaustive family so that transpositions are visible; lowering to first order must drop only the Hessian",
+   text="Per-step validation of value, gradient and full Hessian by ordered name pair for every operator, layout pair and operand form, plus random compositions with non-zero symmetric Hessian leaves.",
+   note="As C01; Hessian tolerance 1e-9 of the sum of absolute terms."),
+ "C03": dict(engine="num", cat="model_checking", design="5/C03",
+   technique="MC_Layout: the vars_cmp / to_new_vars / to_union_vars / aligned-operator transcription on concrete layouts model-checked by TLC against by-name meaning for every ordered pair of variable lists (x shared Arc) and every requested list; the same exhaustive layout family (incl. re-indexed-onto-the-other's-Arc and zero-padded operands) executed on the crate for + - * / % == and the Vars operations and validated by TLC",
+   text="Exhaustive over layouts up to the name-universe bound (3 names quick, 4 in the thorough model): results by name, union of names without duplicates, matching array shapes, equality with missing = zero.",
+   note="The classification returned by vars_cmp is recorded, not judged; name universe of 3 (4) names."),
+ "C17": dict(engine="num", cat="model_checking", design="5/C17",
+   technique="MC_Layout checks the fast-path / lookup-path read-back transcription against by-name meaning for every stored x requested list; the same product is executed on the crate (gradient1, gradient2, gradient1_manifold incl. an absent name, also on a product of two second-order numbers) and every returned entry is compared bit for bit by TLC",
+   text="Exhaustive over stored and requested orders (fast path and lookup path both hit for every stored order); the manifold product-rule identity follows from the validated mul step plus the validated manifold read-back of the product.",
+   note="Name universe of 3 (4) names plus one absent name; requested lists are duplicate-free as the property states."),
+ "C18": dict(engine="num", cat="model_checking", design="5/C18",
+   technique="TLC-written kind-table programs: every operator of the generic Number container x the 3x3 kind pairs x float-left/right x owned/borrowed, every From impl and set_order / set_order_clone cell; TLC validates each against the contained-type rule and requires the two mixed-order arms to be refused (panic), never computed",
+   text="The full table is enumerated, not spot-checked; conversions are compared field by field (names, unit sensitivities, zero Hessian, only higher-order terms dropped).",
+   note="A refusal is observed as a caught panic; an abort would be reported by C20."),
+ "C19": dict(engine="num", cat="model_checking", design="5/C19",
+   technique="TLC-written programs over signed value pairs x layouts x kinds x float position for < <= > >= == !=, abs, signum, %, sum, zero/one identities, abs_sub; each result validated by TLC (comparison on values, abs flips everything, a % b = a - b*trunc(a/b) in value and derivatives, sum = left fold from zero)",
+   text="All four sign combinations of dividend and divisor, equal values, number/float pairs in both positions, Dual / Dual2 / Number.",
+   note="Remainders whose quotient is within 1e-6 of (but not exactly) an integer are skipped."),
 }
 
 PENDING = {
@@ -62,6 +86,8 @@ ENGINES = [
       serves_properties=["C06", "C07"], kind_free_text="TLA+ grammar/rule model checked by TLC + validation of recorded observations and fixing histories"),
  dict(name="fx", path="spec/FXRates.tla spec/MC_FXRates.tla spec/Trace_FX.tla harness/src/fx.rs lib/checks_fx.py",
       serves_properties=["C09", "C10"], kind_free_text="exact TLA+ state machine of the FX triangulation checked by TLC + history validation of real FXRates objects"),
+ dict(name="num", path="spec/FP.tla spec/java/FP.java spec/DualAlgebra.tla spec/NumVM.tla spec/MC_NumVM.tla spec/MC_Layout.tla spec/Gen_NumVM.tla spec/Trace_NumVM.tla harness/src/numvm.rs lib/checks_num.py",
+      serves_properties=["C01", "C02", "C03", "C17", "C18", "C19"], kind_free_text="TLA+ register machine over by-name dual numbers; rules checked against finite differences by TLC; per-instruction trace validation"),
 ]
 
 
